@@ -4,10 +4,12 @@ CFG = {
     "props_module": "RpmVerif.Props.C16",
     "required_theorems": ["RpmVerif.C16.offsets_exact", "RpmVerif.C16.intro_at_offsets", "RpmVerif.C16.parsed_wf", "RpmVerif.C16.offsets_fit_u64",
                           "RpmVerif.C16.empty_wf", "RpmVerif.C16.clear_eq_empty", "RpmVerif.C16.write_empty", "RpmVerif.C16.parse_write_empty",
-                          "RpmVerif.C16.offsets_new_empty", "RpmVerif.C16.offsets_cleared"],
+                          "RpmVerif.C16.offsets_new_empty", "RpmVerif.C16.offsets_cleared",
+                          "RpmVerif.C16.size_rest_fits_u64", "RpmVerif.C16.header_size_fits", "RpmVerif.C16.padding_fits", "RpmVerif.C16.offsets_steps_fit"],
     "trivial_branches": ["rejected"],
     "rule": "asset + fixture packages; hand-encoded signature headers with 0..40 entries × store slack 0..7 (all sizes mod 8) × random main headers; "
-            "seeded structure-aware packages; thorough adds two ~4 GiB stores (the overflow guard of the former u32 arithmetic). Observable: the four "
+            "seeded structure-aware packages; offbig16: up to 2^20 NULL entries / 100 kB stores in the MAIN or the signature header; thorough adds ~4 GiB stores in either header and "
+            "2^28 index entries in the main header (16 x 2^28 = 2^32: the overflow guard of the former u32 arithmetic; 21 GiB of RAM). Observable: the four "
             "offsets, written length, payload length, whether a header intro (magic+version) starts at each header offset in the written bytes. "
             "Non-trivial = accepted by the parser; distinct = distinct request lines.",
     "exhaustive": False,
@@ -18,7 +20,7 @@ CFG = {
     "level_text": "Theorem offsets_exact: for EVERY well-formed metadata value and payload, each reported offset equals the length of what is written before "
                   "that segment (so a header intro starts at both header offsets, the distance from the payload offset to the end is the payload length, offsets "
                   "strictly increase); offsets_cleared / offsets_new_empty: the instances for a signature header cleared (Header::clear, modelled as Header.clear) or "
-                  "replaced by Header::new_empty() in memory (offsets 0, 96, 112, 112 + main header size; empty_wf, clear_eq_empty, write_empty, parse_write_empty); parsed_wf: every parsed package is well formed; offsets_fit_u64: the u64 sums cannot overflow. Tied to the code by "
+                  "replaced by Header::new_empty() in memory (offsets 0, 96, 112, 112 + main header size; empty_wf, clear_eq_empty, write_empty, parse_write_empty); parsed_wf: every parsed package is well formed; offsets_fit_u64: the u64 sums cannot overflow; size_rest_fits_u64 / header_size_fits / padding_fits / offsets_steps_fit: the expressions of Header::parse (size_rest), Header::size and padding_required, scraped from header.rs WITH the widths of their Rust types (Gen/AllocSites.lean, Model/Width.lean: checked unsigned arithmetic), never overflow for any u32 intro fields and evaluate to the model's numbers (a product taken in u32 before widening would fail at 2^28 entries). Tied to the code by "
                   "differential runs (offsets vs positions in the bytes the implementation writes, boundaries recomputed from raw input by the spec).",
     "level_note": "Trusted: Lean kernel; model fidelity as exercised; well-formedness of builder/signer output is C09's theorem, here covered by the correspondence.",
 }
